@@ -562,3 +562,7 @@ LEVEL_NOTE = ("Exact arithmetic over Q; squared distances compared (same argmax/
               "fixed signature; harness and case printer trusted; no axioms")
 TECHNIQUE = "Coq proof (loop invariants, induction) on executable model + in-Coq differential correspondence through the real endpoint"
 DESIGN_REF = "DESIGN.md section 7, C18"
+
+# --- second build round: additions to the claimed level
+LEVEL_TEXT += ("; the link to raw values: the first minimum of the scaled values is a successful observation with the best raw value unless all "
+               "successes tie, overall and per cluster (C18_view_best_raw)")
